@@ -2,19 +2,20 @@
 """tools_seed.py <patch.diff> <Cxx> [--all] — apply a seeded change to /repo, run the check(s),
 undo it straight afterwards. Prints which checks raise VIOLATION."""
 import subprocess, sys, json, os
-ROOT = "/verif"
+ROOT = os.path.dirname(os.path.abspath(__file__))
+REPO = os.environ.get("CEL_REPO", "/repo")   # a lane may point the tools at its own worktree of /repo
 def sh(cmd, **kw):
     return subprocess.run(cmd, shell=True, stdout=subprocess.PIPE, stderr=subprocess.STDOUT, text=True, **kw)
 def main():
     patch, pid = sys.argv[1], sys.argv[2]
     allp = "--all" in sys.argv
-    st = sh("git -C /repo status --porcelain --untracked-files=no").stdout.strip()
+    st = sh(f"git -C {REPO} status --porcelain --untracked-files=no").stdout.strip()
     if st:
         print("refusing: /repo has uncommitted changes:\n" + st); return 2
-    r = sh(f"git -C /repo apply --check {patch}")
+    r = sh(f"git -C {REPO} apply --check {patch}")
     if r.returncode != 0:
         print("patch does not apply:", r.stdout); return 2
-    sh(f"git -C /repo apply {patch}")
+    sh(f"git -C {REPO} apply {patch}")
     try:
         ids = [pid]
         if allp:
@@ -28,6 +29,6 @@ def main():
             print(p, "exit", r.returncode, viol[:1])
         return 0
     finally:
-        sh("git -C /repo checkout -- .")
+        sh(f"git -C {REPO} checkout -- .")
 if __name__ == "__main__":
     sys.exit(main())
